@@ -24,7 +24,9 @@ binding:   (a) spec -> code: the CASE lines (a checksum-selected sample of the b
            (b) code -> spec: random and near-equal pairs / triples / quadruples over the full valid
                alphabet are run through the real code -- pooled objects, string operands, fresh
                temporaries, an object MUTATED through every string of the trace (full_version and
-               component-wise), then everything again on partly re-created objects -- and every recorded
+               component-wise), BOUNDARY-MOVING component assignments (revision / epoch set to None with
+               '-' / ':' in the upstream part, '-' / ':' brought in by the assigned value: the string then
+               splits elsewhere), then everything again on partly re-created objects -- and every recorded
                comparison is validated by TLC against the string the object holds at that moment
            size dimension (notes/SIZE_STRESS.md), in both legs: every 4th replayed case is concretized by
                a SOUND size transformation of the abstract pair (argument at stress_part): every non-digit
@@ -38,7 +40,9 @@ binding:   (a) spec -> code: the CASE lines (a checksum-selected sample of the b
                (thorough: ~5000, quick: a handful); skipped with a note when dpkg is absent
 spec-level negative controls (re-run in every check, TLC must report the violation):
            HashOnString = TRUE  -> HashConsistent violated;  TildeOrderZero = TRUE -> Agree violated;
-           StaleKey = TRUE (object layer: the key survives an assignment) -> Agree, HashConsistent violated
+           StaleKey = TRUE (object layer: the key survives an assignment) -> Agree, HashConsistent violated;
+           NoResplit = TRUE (object layer: after a component assignment the recomposed string is not split
+           again: stale components after a boundary move) -> Agree, HashConsistent violated
 domain:    DESIGN.md D2: only valid version strings, nothing from the unspecified zone (empty revision,
            ':' after the last hyphen, nothing before the last hyphen).  The trace module re-checks it
            (TDomain); a generator bug is a machinery failure, not a finding.
@@ -299,12 +303,14 @@ CONTROLS = (   # (module, cfg, switch, the only invariant kept, ...)
     ("DpkgVersionMC", "MC_DpkgVersion_control.cfg", "TildeOrderZero", "Agree"),
     ("DpkgVersionObj", "MC_DpkgVersion_obj_control.cfg", "StaleKey", "Agree"),
     ("DpkgVersionObj", "MC_DpkgVersion_obj_control.cfg", "StaleKey", "HashConsistent"),
+    ("DpkgVersionObj", "MC_DpkgVersion_obj_control.cfg", "NoResplit", "Agree"),
+    ("DpkgVersionObj", "MC_DpkgVersion_obj_control.cfg", "NoResplit", "HashConsistent"),
 )
 
 
 def negative_controls(ctx):
-    """each switch must make TLC report exactly the named invariant (the four runs are tiny and run
-    side by side)"""
+    """each switch must make TLC report exactly the named invariant (the runs are tiny and run side
+    by side)"""
     from concurrent.futures import ThreadPoolExecutor
 
     def one(c):
@@ -313,8 +319,8 @@ def negative_controls(ctx):
         txt = "\n".join(l for l in txt.splitlines() if not l.startswith("INVARIANT") or l.split()[1] == inv)
         return core.run_tlc(module, txt, ctx.work, workers=1, java_opts=JAVA_SHORT, want_tags=set(), timeout=600)
 
-    # quick: one control per module, alternating with the seed; thorough: all four
-    todo = CONTROLS if ctx.tier != "quick" else (CONTROLS[0::3] if ctx.seed % 2 == 0 else CONTROLS[1:3])
+    # quick: one control per module, rotating with the seed; thorough: all six
+    todo = CONTROLS if ctx.tier != "quick" else (CONTROLS[ctx.seed % 2], CONTROLS[2 + ctx.seed % 4])
     with ThreadPoolExecutor(max_workers=len(todo)) as ex:
         results = list(ex.map(one, todo))
     out = {}
@@ -470,6 +476,8 @@ def replay_muts(ctx, muts, ops, nconc):
         for c in range(nconc):
             sv = concretize(rng, [v1, v2, arg, v1n], canonical=(c == 0 and (nconc > 1 or idx % 2 == 0)))
             st = pick_stress(rng, idx + c, pad=False)      # no random padding: a must become exactly sv[3]
+            if st and how != "full" and re.search("[-:]", split(sv[0])[1] + sv[2]):
+                st = None              # a boundary-moving assignment: the separators are about to become structure
             if st:
                 kk, zz, _ = st
                 sv = [stress_version(None, sv[0], kk, zz), stress_version(None, sv[1], kk, zz),
@@ -745,11 +753,99 @@ def record_trace(strs):
     return {"vs": [cps(x) for x in strs], "strs": list(strs), "events": events, "notes": notes}
 
 
+def in_domain(v):
+    """D2 (valid and outside the unspecified zone) -- a FILTER for generated inputs only; the trace
+    module re-checks every recorded string (TDesign), a disagreement is a machinery failure"""
+    ep, up, rev = split(v)
+    if ep is not None and not re.fullmatch("[0-9]+", ep):
+        return False
+    if rev is not None and not re.fullmatch("[A-Za-z0-9.+~]+", rev):
+        return False
+    return bool(re.fullmatch("[A-Za-z0-9.+~%s%s]+" % (":" if ep is not None else "", "-" if rev is not None else ""), up))
+
+
+TAILS = ["1", "0", "~1", "a", "00", "2+b1", "0~"]
+HEADS = ["7", "0", "10", "007"]
+BOUNDARY_OPS = ("revision=None", "epoch=None", "upstream+='-x'", "upstream='d:'+", "revision+='-x'", "epoch+=':d'")
+
+
+def boundary_assign(obj, v, op, salt):
+    """ONE component assignment on obj (which holds v) after which the last '-' / first ':' of the
+    printed string is not where the assigned components had it.  False: not applicable to v."""
+    ep, up, rev = split(v)
+    tail, head = TAILS[salt % len(TAILS)], HEADS[salt % len(HEADS)]
+    if op == "revision=None":
+        if rev is None or "-" not in up:
+            return False
+        obj.debian_revision = None
+    elif op == "epoch=None":
+        if ep is None or ":" not in up:
+            return False
+        obj.epoch = None
+    elif op == "upstream+='-x'":
+        if rev is not None:
+            return False
+        obj.upstream_version = up + "-" + tail
+    elif op == "upstream='d:'+":
+        if ep is not None:
+            return False
+        obj.upstream_version = head + ":" + up
+    elif op == "revision+='-x'":
+        obj.debian_revision = (rev or "1") + "-" + tail
+    else:
+        obj.epoch = (ep or "0") + ":" + head
+    return True
+
+
+def record_boundary(v, partner, op, salt):
+    """a trace [v, partner, what v becomes]: an object holding v is compared (caches warm), gets one
+    boundary-moving component assignment, and is then compared -- judged against the string it now
+    PRINTS -- with the partner, with a fresh object built from its own string (equal, equal hashes)
+    and with a fresh object of its former string.  None: op not applicable / rejected by the code /
+    result outside the domain (C14's subject)."""
+    from debian.debian_support import Version
+    obj, pp = Version(v), Version(partner)
+    events = []
+
+    def ev(i, j, L, R, src, hl=None, hr=None):
+        events.append(_event(i, j, observe_pair(L, R, hl or L, hr or R), src))
+
+    ev(0, 1, obj, pp, "object before the assignment")
+    ev(1, 0, pp, obj, "object before the assignment")
+    try:
+        if not boundary_assign(obj, v, op, salt):
+            return None
+    except Exception:
+        return None
+    d = str(obj)
+    if not in_domain(d) or len(d) > MAXLEN + 8:
+        return None
+    src = "object after %s" % op
+    fresh, old = Version(d), Version(v)
+    ev(2, 1, obj, pp, src)
+    ev(1, 2, pp, obj, src)
+    ev(2, 2, obj, fresh, src + " <op> fresh object of its own string")
+    ev(2, 2, fresh, obj, "fresh object of its own string <op> " + src)
+    ev(2, 0, obj, old, src + " <op> fresh object of its former string")
+    ev(0, 2, old, obj, "fresh object of its former string <op> " + src)
+    ev(2, 1, obj, partner, src + " <op> str", obj, pp)
+    ev(2, 1, obj, pp, src + ", second time")
+    strs = [v, partner, d]
+    return {"vs": [cps(x) for x in strs], "strs": strs, "events": events, "notes": [], "bop": [op, salt]}
+
+
 def make_traces(rng, n):
     traces = []
     for t in range(n):
         big = t % 4 == 3                                 # every fourth trace is size-stressed
         a = gen_version(rng, big=big)
+        if rng.random() < 0.2:                           # separators as payload of the upstream part
+            if a[2] is not None and rng.random() < 0.6:
+                i = rng.randint(1, len(a[1]))
+                a[1] = a[1][:i] + "-" + a[1][i:]
+            if a[0] is not None and rng.random() < 0.6:
+                a[1] = rng.choice(HEADS) + ":" + a[1]
+            a = normalize(a)
         k = rng.random() * (0.86 if big else 1.0)        # (at most three such strings per trace)
         if k < 0.40:
             vs = [a, near(rng, a)]
@@ -766,6 +862,14 @@ def make_traces(rng, n):
             vs = [a, b, c, near(rng, rng.choice([a, c]))]
         rng.shuffle(vs)
         traces.append(record_trace([join(v) for v in vs]))
+        # boundary-moving component assignments: the two that need separators in the upstream part
+        # whenever they apply, one of the four others on every second trace
+        v, partner = join(a), join(near(rng, a))
+        todo = [op for op in BOUNDARY_OPS[:2]] + ([BOUNDARY_OPS[2 + (t // 2) % 4]] if t % 2 == 0 else [])
+        for op in todo:
+            b = record_boundary(v, partner, op, t)
+            if b:
+                traces.append(b)
     return traces
 
 
@@ -923,7 +1027,7 @@ def run(ctx):
              cases_per_sign={str(k): v for k, v in per_sign.items()}, pair_visits=n)
 
     # 2b. object layer: closed state space of two mutable objects; assignments replayed
-    name, stride = ("MC_DpkgVersion_obj.cfg", 10) if quick else ("MC_DpkgVersion_obj_thorough.cfg", 90)
+    name, stride = ("MC_DpkgVersion_obj.cfg", 2) if quick else ("MC_DpkgVersion_obj_thorough.cfg", 8)
     offset = rng.randrange(stride)
     r, muts, ops = design_run(ctx, name, stride, offset, module="DpkgVersionObj", tag="MUT")
     n, per_how = replay_muts(ctx, muts, ops, nconc)
@@ -933,7 +1037,7 @@ def run(ctx):
     ctx.extra["behaviours_replayed"] = replayed
 
     # 3. code -> spec: recorded comparisons validated by TLC on the concrete code points
-    ntr = 500 if quick else 6000
+    ntr = 400 if quick else 5000
     traces = make_traces(rng, ntr)
     nev = sum(len(t["events"]) for t in traces)
     bad, nrej = validate(ctx, traces)
@@ -947,9 +1051,16 @@ def run(ctx):
     for t in traces:
         for e in t["events"]:
             k = re.sub(r" \((full|parts)\)", "", e["src"])
+            for op in BOUNDARY_OPS:
+                k = k.replace(op, "a boundary-moving assignment")
             srcs[k] = srcs.get(k, 0) + 1
     eqpairs = sum(1 for t in traces for e in t["events"] if e["cmp"] == 0 and e["i"] < e["j"]
                   and t["strs"][e["i"] - 1] != t["strs"][e["j"] - 1])
+    bops = {}
+    for t in traces:
+        if t.get("bop"):
+            bops[t["bop"][0]] = bops.get(t["bop"][0], 0) + 1
+    ctx.extra["boundary_moving_assignments_recorded"] = bops
     ctx.extra["traces"] = {"recorded": len(traces), "comparisons": nev, "rejected": nrej, "comparisons_per_source": srcs,
                            "assignments_not_completed": sum(1 for t in traces if t["notes"]),
                            "equal_pairs_with_different_spelling": eqpairs,
@@ -964,7 +1075,7 @@ def run(ctx):
         t = traces[i]
         e = t["events"][at] if at < len(t["events"]) else None
         where = "?" if e is None else "%r vs %r [%s]" % (t["strs"][e["i"] - 1], t["strs"][e["j"] - 1], e["src"])
-        ctx.violation({"kind": "trace", "strs": t["strs"], "first_unexplained_event": at + 1, "event": e},
+        ctx.violation({"kind": "trace", "strs": t["strs"], "bop": t.get("bop"), "first_unexplained_event": at + 1, "event": e},
                       "recorded comparison not explained by the dpkg reference (DpkgVersion.tla): %s observed %r"
                       % (where, {k: v for k, v in (e or {}).items() if k not in ("i", "j", "src")}))
 
@@ -993,7 +1104,12 @@ def replay(ctx, case):
                 return "%s: %s" % (detail[0], detail[2])
         return None
     if kind == "trace":
-        t = record_trace(case["strs"])
+        if case.get("bop"):
+            t = record_boundary(case["strs"][0], case["strs"][1], case["bop"][0], case["bop"][1])
+            if t is None:
+                return None
+        else:
+            t = record_trace(case["strs"])
         bad, nrej = validate(ctx, [t], with_controls=False)
         if nrej:
             at = bad[0][1]
